@@ -442,4 +442,365 @@ Proof.
     destruct (stv_step_err_kinds cfg t p0 p prev _ s EFuel Hctx Hscr Es) as [H|[H|[H|[H|H]]]]; discriminate.
 Qed.
 
+(* ====================== run_stv ====================== *)
+
+Lemma stv_validate_ok : forall p, wf_stv0 p -> stv_validate cand p = inl tt.
+Proof.
+  intros p [_ Hwf]. unfold STV.stv_validate. apply rfirst_err_ok_inv. intros b Hb.
+  rewrite Forall_forall in Hwf. destruct (Hwf b Hb) as (Hne & Hs & _).
+  destruct (rk b) as [|g r] eqn:E; [contradiction Hne; reflexivity|].
+  assert (Hex : existsb (fun s0 : list cand => Nat.ltb 1 (length s0)) (g :: r) = false).
+  { destruct (existsb (fun s0 : list cand => Nat.ltb 1 (length s0)) (g :: r)) eqn:Ex; [|reflexivity].
+    apply existsb_exists in Ex. destruct Ex as (g0 & Hg0 & Hl). rewrite Forall_forall in Hs.
+    rewrite (Hs g0 Hg0) in Hl. discriminate. }
+  cbv beta iota. rewrite Hex. reflexivity.
+Qed.
+
+Lemma stv_init_err : forall cfg p e, wf_stv0 p -> stv_init cfg p = inr e ->
+  e = EValue /\ (~ (1 <= s_m cfg <= Z.of_nat (length (cands p)))%Z \/ s_quota cfg = QBad).
+Proof.
+  intros cfg p e Hwf H. unfold STV.stv_init, rbind in H. rewrite (stv_validate_ok p Hwf) in H.
+  destruct ((s_m cfg <=? 0)%Z || (Z.of_nat (length (cands p)) <? s_m cfg)%Z) eqn:E.
+  - injection H as <-. split; [reflexivity|]. left. apply orb_true_iff in E.
+    destruct E as [E|E]; [apply Z.leb_le in E|apply Z.ltb_lt in E]; lia.
+  - unfold threshold in H. destruct (s_quota cfg); try discriminate. injection H as <-.
+    split; [reflexivity|]. right. reflexivity.
+Qed.
+
+Lemma initial_state_ok : forall p, wf_stv0 p -> exists s0, initial_state p = inl s0.
+Proof.
+  intros p Hwf. unfold STV.initial_state, rbind.
+  destruct (fpv_succeeds cand ceqb ceqb_spec p Hwf) as [d Hd]. rewrite Hd. eexists. reflexivity.
+Qed.
+
+Notation run_stv_unfold := (run_stv_unfold cand ceqb).
+
+Theorem run_stv_inv : forall cfg (p : profile) (s s' : mstate) out,
+  wf_stv0 p -> (s_transfer cfg = TRandom -> script_ok s) ->
+  run_stv cfg p s = inl (out, s') ->
+  exists t pf stsf, stv_init cfg p = inl t /\
+    stv_inv cfg t (total_wt (ballots p)) p pf stsf /\ out = rev stsf /\
+    count_elected stsf = s_m cfg.
+Proof.
+  intros cfg p s s' out Hwf Hscr H. rewrite run_stv_unfold in H.
+  destruct (stv_init cfg p) as [t|e] eqn:Ei; [|discriminate].
+  destruct (initial_state p) as [s0|e] eqn:E0; [|discriminate].
+  pose proof (stv_inv_init cfg p t s0 Hwf Ei E0) as Hinv.
+  destruct (stv_loop_inv _ cfg t _ p p [s0] s s' out Hinv Hscr H) as (pf & stsf & H1 & H2 & H3 & _).
+  exists t, pf, stsf. split; [reflexivity|]. split; [exact H1|]. split; [exact H2|exact H3].
+Qed.
+
+Theorem run_stv_no_fuel : forall cfg (p : profile) (s : mstate),
+  wf_stv0 p -> (s_transfer cfg = TRandom -> script_ok s) -> run_stv cfg p s <> inr EFuel.
+Proof.
+  intros cfg p s Hwf Hscr. rewrite run_stv_unfold.
+  destruct (stv_init cfg p) as [t|e] eqn:Ei.
+  - destruct (initial_state_ok p Hwf) as [s0 E0]. rewrite E0.
+    apply (stv_loop_no_fuel _ cfg t (total_wt (ballots p)) p p [s0] s (stv_inv_init cfg p t s0 Hwf Ei E0) Hscr).
+    lia.
+  - destruct (stv_init_err cfg p e Hwf Ei) as [-> _]. discriminate.
+Qed.
+
+(* ====================== G: the recorded rounds ====================== *)
+
+Lemma hist_app : forall p0 l1 l2, hist_ok p0 (l1 ++ l2) -> hist_ok p0 l2.
+Proof.
+  intros p0 l1 l2. induction l1 as [|a l1 IH]; intros H; [exact H|].
+  apply IH. cbn [app STVSpec.hist_ok] in H. apply H.
+Qed.
+
+Lemma concat_rev_perm : forall {A} (l : list (list A)), Permutation (concat (rev l)) (concat l).
+Proof.
+  intros A l. induction l as [|a l IH]; [constructor|]. cbn [rev concat].
+  rewrite concat_app. cbn [concat]. rewrite app_nil_r.
+  eapply Permutation_trans; [apply Permutation_app_comm|]. apply Permutation_app_head. exact IH.
+Qed.
+
+Lemma concat_map_perm : forall {A B} (f g : A -> list B) (l : list A),
+  (forall x, Permutation (f x) (g x)) -> Permutation (concat (map f l)) (concat (map g l)).
+Proof.
+  intros A B f g l H. induction l as [|a l IH]; [constructor|]. cbn [map concat].
+  apply Permutation_app; [apply H|exact IH].
+Qed.
+
+Lemma elected_upto_rev : forall (a : list estate) st,
+  Permutation (flat (elected_upto cand (a ++ [st]) (length a))) (all_elected (st :: rev a)).
+Proof.
+  intros a st. unfold STVSpec.elected_upto.
+  assert (E : firstn (S (length a)) (a ++ [st]) = a ++ [st]).
+  { apply firstn_all2. rewrite app_length. cbn [length]. lia. }
+  rewrite E, flat_concat_map. unfold STVSpec.all_elected.
+  change (fun x : estate => flat (real_groups (elected x))) with elected_in.
+  replace (st :: rev a) with (rev (a ++ [st])) by (rewrite rev_app_distr; reflexivity).
+  rewrite map_rev. apply Permutation_sym. apply concat_rev_perm.
+Qed.
+
+Lemma firstn_app_exact : forall {A} (a b : list A) x, firstn (S (length a)) (a ++ x :: b) = a ++ [x].
+Proof.
+  intros A a b x. induction a as [|y a IH]; [reflexivity|]. simpl. f_equal. exact IH.
+Qed.
+
+Theorem hist_partition : forall p0 (stsf : list estate) r st, hist_ok p0 stsf ->
+  nth_error (rev stsf) r = Some st ->
+  Permutation (flat (elected_upto cand (rev stsf) r) ++ flat (remaining st) ++
+               flat (eliminated_upto cand (rev stsf) r)) (cands p0).
+Proof.
+  intros p0 stsf r st Hh Hn. apply nth_error_split in Hn. destruct Hn as (a & b & Hout & Hlen).
+  assert (Hsts : stsf = rev b ++ st :: rev a).
+  { rewrite <- (rev_involutive stsf), Hout, rev_app_distr. cbn [rev]. rewrite <- app_assoc. reflexivity. }
+  rewrite Hsts in Hh. apply hist_app in Hh. cbn [STVSpec.hist_ok] in Hh. destruct Hh as [Hh _].
+  eapply Permutation_trans; [|exact Hh]. rewrite Hout, <- Hlen.
+  unfold STVSpec.elected_upto, STVSpec.eliminated_upto. rewrite firstn_app_exact.
+  apply Permutation_app; [|apply Permutation_app_head].
+  - pose proof (elected_upto_rev a st) as H. unfold STVSpec.elected_upto in H.
+    assert (E : firstn (S (length a)) (a ++ [st]) = a ++ [st]).
+    { apply firstn_all2. rewrite app_length. cbn [length]. lia. }
+    rewrite E in H. exact H.
+  - rewrite rev_app_distr. cbn [rev app]. rewrite flat_concat_map. unfold STVSpec.all_eliminated.
+    apply concat_map_perm. intros x. unfold STVSpec.eliminated_in, Core.flat.
+    apply concat_rev_perm.
+Qed.
+
+Lemma firstn_le_app : forall {A} (l : list A) i j, (i <= j)%nat ->
+  exists ext, firstn j l = firstn i l ++ ext.
+Proof.
+  intros A l i j H. exists (firstn (j - i) (skipn i l)).
+  replace j with (i + (j - i))%nat at 1 by lia. apply firstn_add_skipn.
+Qed.
+
+Theorem elected_upto_mono : forall (out : list estate) r r' c, (r <= r')%nat ->
+  In c (flat (elected_upto cand out r)) -> In c (flat (elected_upto cand out r')).
+Proof.
+  intros out r r' c Hle H. unfold STVSpec.elected_upto in *.
+  destruct (firstn_le_app out (S r) (S r')) as [ext E]; [lia|].
+  rewrite E, map_app, concat_app, (flat_app cand). apply in_or_app. left. exact H.
+Qed.
+
+Theorem eliminated_upto_mono : forall (out : list estate) r r' c, (r <= r')%nat ->
+  In c (flat (eliminated_upto cand out r)) -> In c (flat (eliminated_upto cand out r')).
+Proof.
+  intros out r r' c Hle H. unfold STVSpec.eliminated_upto in *.
+  destruct (firstn_le_app out (S r) (S r')) as [ext E]; [lia|].
+  rewrite E, rev_app_distr, map_app, concat_app, (flat_app cand). apply in_or_app. right. exact H.
+Qed.
+
+Lemma all_elected_rev : forall sts : list estate, Permutation (all_elected (rev sts)) (all_elected sts).
+Proof. intros sts. unfold STVSpec.all_elected. rewrite map_rev. apply concat_rev_perm. Qed.
+
+Lemma count_elected_rev : forall sts, count_elected (rev sts) = count_elected sts.
+Proof.
+  intros sts. rewrite !count_elected_all. f_equal. apply Permutation_length. apply all_elected_rev.
+Qed.
+
+Lemma hist_elected_nodup : forall p0 sts, NoDup (cands p0) -> hist_ok p0 sts -> NoDup (all_elected sts).
+Proof.
+  intros p0 sts Hnd H. destruct sts as [|st older]; [constructor|].
+  cbn [STVSpec.hist_ok] in H. destruct H as [H _].
+  apply (Permutation_NoDup (Permutation_sym H)) in Hnd. apply (NoDup_app_inv _ _ Hnd).
+Qed.
+
+(* the three statements of C01 on a finished STV count *)
+Theorem run_stv_outcome : forall cfg (p : profile) (s s' : mstate) out,
+  wf_stv0 p -> (s_transfer cfg = TRandom -> script_ok s) ->
+  run_stv cfg p s = inl (out, s') ->
+  (forall r st, nth_error out r = Some st ->
+     Permutation (flat (elected_upto cand out r) ++ flat (remaining st) ++ flat (eliminated_upto cand out r))
+                 (cands p)) /\
+  count_elected out = s_m cfg /\ NoDup (all_elected out).
+Proof.
+  intros cfg p s s' out Hwf Hscr H.
+  destruct (run_stv_inv cfg p s s' out Hwf Hscr H) as (t & pf & stsf & _ & Hinv & -> & Hcnt).
+  destruct Hinv as [_ Hhist _ _ _ _]. split; [|split].
+  - intros r st Hn. apply (hist_partition p stsf r st Hhist Hn).
+  - rewrite count_elected_rev. exact Hcnt.
+  - eapply Permutation_NoDup; [apply Permutation_sym, all_elected_rev|].
+    apply (hist_elected_nodup p stsf (proj1 Hwf) Hhist).
+Qed.
+
+(* ====================== I: a Droop quota cannot be reached by too many ====================== *)
+
+Lemma qsum_ge_const : forall {A} (f : A -> Q) (c : Q) (l : list A),
+  (forall a, In a l -> c <= f a) -> c * Qnat (length l) <= qsum (map f l).
+Proof.
+  intros A f c l H. induction l as [|a l IH].
+  - cbn [map length]. rewrite Lib_sets.qsum_nil. change (Qnat 0) with 0. lra.
+  - cbn [map length]. rewrite Lib_sets.qsum_cons, Qnat_S.
+    specialize (H a (or_introl eq_refl)) as Ha.
+    assert (IH' := IH (fun b Hb => H b (or_intror Hb))). lra.
+Qed.
+
+(* candidates of the current profile that reach the threshold, and those already elected, have
+   each a full threshold of the initial weight *)
+Theorem reachers_bound : forall cfg t N (p0 p : profile) sts (W : cset),
+  stv_inv cfg t N p0 p sts -> s_transfer cfg <> TFullWeight ->
+  NoDup W -> incl W (cands p) -> W <> [] ->
+  (forall w, In w W -> t <= tally w (ballots p)) ->
+  t * inject_Z (Z.of_nat (length W) + count_elected sts) <= N.
+Proof.
+  intros cfg t N p0 p sts W Hinv Hk Hnd Hincl Hne Hreach.
+  destruct Hinv as [(prev & older & -> & Hctx) _ _ Hweight _ _].
+  pose proof (ctx_wf cand ceqb p0 p prev Hctx) as Hwf.
+  destruct (Hweight Hk) as [[Ecs _]|Hw].
+  { exfalso. destruct W as [|w W']; [apply Hne; reflexivity|].
+    specialize (Hincl w (or_introl eq_refl)). rewrite Ecs in Hincl. destruct Hincl. }
+  pose proof (app_set_diff_perm cand ceqb ceqb_spec W (cands p) Hnd (proj1 Hwf) Hincl) as Hperm.
+  pose proof (tally_total cand ceqb ceqb_spec p Hwf) as Htot.
+  rewrite <- (Lib_sets.qsum_perm _ _ (Permutation_map (fun c => tally c (ballots p)) Hperm)) in Htot.
+  rewrite map_app, Lib_sets.qsum_app in Htot.
+  assert (H0 : 0 <= qsum (map (fun c => tally c (ballots p)) (set_diff (cands p) W))).
+  { apply Lib_sets.qsum_nonneg. apply Forall_forall. intros x Hx. apply in_map_iff in Hx.
+    destruct Hx as (c & <- & _). apply tally_nonneg. intros b Hb.
+    apply (ctx_bs_pos cand ceqb p0 p prev Hctx b Hb). }
+  pose proof (qsum_ge_const (fun c => tally c (ballots p)) t W Hreach) as HW.
+  rewrite inject_Z_plus. fold (Qnat (length W)). lra.
+Qed.
+
+Theorem droop_seats : forall cfg t N (p0 p : profile) sts (W : cset),
+  stv_inv cfg t N p0 p sts -> s_transfer cfg <> TFullWeight ->
+  N < inject_Z (s_m cfg + 1) * t -> 0 < t ->
+  NoDup W -> incl W (cands p) ->
+  (forall w, In w W -> t <= tally w (ballots p)) ->
+  W <> [] -> (Z.of_nat (length W) + count_elected sts <= s_m cfg)%Z.
+Proof.
+  intros cfg t N p0 p sts W Hinv Hk HN Ht Hnd Hincl Hreach Hne.
+  pose proof (reachers_bound cfg t N p0 p sts W Hinv Hk Hnd Hincl Hne Hreach) as Hb.
+  assert (Hlt : inject_Z (Z.of_nat (length W) + count_elected sts) < inject_Z (s_m cfg + 1)).
+  { apply (Qmult_lt_r _ _ t Ht). lra. }
+  rewrite <- Zlt_Qlt in Hlt. lia.
+Qed.
+
+Section Droop.
+Variable cfg : stv_cfg.
+Variables t N : Q.
+Variable p0 : profile.
+Hypothesis Hk : s_transfer cfg <> TFullWeight.
+Hypothesis HN : N < inject_Z (s_m cfg + 1) * t.
+Hypothesis Ht : 0 < t.
+
+(* no over-election: the number of elected candidates never exceeds m *)
+Lemma droop_step_count : forall (p : profile) prev older (s s' : mstate) np st,
+  stv_inv cfg t N p0 p (prev :: older) ->
+  (s_transfer cfg = TRandom -> script_ok s) ->
+  (count_elected (prev :: older) <= s_m cfg)%Z ->
+  stv_step cfg t p0 (count_elected (prev :: older)) p prev s = inl ((np, st), s') ->
+  (count_elected (st :: prev :: older) <= s_m cfg)%Z.
+Proof.
+  intros p prev older s s' np st Hinv Hscr Hle Hstep.
+  pose proof Hinv as Hinv0.
+  destruct Hinv as [(prev' & older' & Heq & Hctx) _ _ _ _ _]. injection Heq as <- <-.
+  destruct (stv_step_ok_inv cand ceqb ceqb_spec cfg t p0 p prev Hctx _ s s' np st Hscr Hstep)
+    as [[_ (W & others & mvs & s1 & Hr)]|[(_ & Hcnt & _ & Hd)|(_ & Hcnt & x & Hx)]].
+  - pose proof Hr as Hr'.
+    destruct Hr' as [HrW _ HrNe HrNd _ HrReach _ _ _ _ _ _ _ _].
+    assert (HE : elected_in st = W) by (unfold STVSpec.elected_in; rewrite flat_real_groups; exact HrW).
+    rewrite count_elected_cons, HE.
+    apply (droop_seats cfg t N p0 p (prev :: older) W Hinv0 Hk HN Ht HrNd); [|exact HrReach|exact HrNe].
+    intros c Hc. apply (er_W_in cand ceqb _ _ _ _ _ _ _ _ _ _ _ _ Hr c Hc).
+  - destruct Hd as [_ Hel _ _ _ _ _].
+    assert (HE : elected_in st = flat (remaining prev)).
+    { unfold STVSpec.elected_in. rewrite flat_real_groups, Hel. reflexivity. }
+    rewrite count_elected_cons, HE, (Permutation_length (ctx_flat_perm cand ceqb p0 p prev Hctx)). lia.
+  - destruct Hx as [_ _ _ HxEl _ _ _ _ _].
+    assert (HE : elected_in st = []) by (unfold STVSpec.elected_in; rewrite HxEl; reflexivity).
+    rewrite count_elected_cons, HE. cbn [length]. lia.
+Qed.
+
+(* errors of a round under a Droop quota with a quota-preserving transfer *)
+Definition droop_error (e : exn) : Prop :=
+  e = EScript \/
+  (e = EValue /\ s_simul cfg = false /\ (s_tiebreak cfg = None \/ s_tiebreak cfg = Some TBInvalid)) \/
+  (s_transfer cfg = TRandom /\ (e = EType \/ e = EValue)).
+
+Lemma droop_step_errors : forall (p : profile) prev older (s : mstate) e,
+  stv_inv cfg t N p0 p (prev :: older) ->
+  (s_transfer cfg = TRandom -> script_ok s) ->
+  (count_elected (prev :: older) <= s_m cfg)%Z ->
+  stv_step cfg t p0 (count_elected (prev :: older)) p prev s = inr e ->
+  droop_error e.
+Proof.
+  intros p prev older s e Hinv Hscr Hle Hstep.
+  destruct Hinv as [(prev' & older' & Heq & Hctx) _ Henough _ _ _]. injection Heq as <- <-.
+  pose proof (ctx_wf cand ceqb p0 p prev Hctx) as Hwf.
+  destruct (stv_step_err_inv cand ceqb ceqb_spec cfg t p0 p prev Hctx _ s e Hscr Hstep)
+    as [(_ & Hsim & g & rest & _ & _ & Hcase)|[(w & s1 & Hw & Hreach & _ & Hd)|[(_ & low & Htb)|(_ & He & Ecs & Hm)]]].
+  - destruct Hcase as [[Hnone He]|(kind & Hkind & Htb)].
+    + right. left. split; [exact He|]. split; [exact Hsim|]. left. exact Hnone.
+    + destruct (tiebreak_set_err cand ceqb ceqb_spec g p kind s e Hwf Htb) as [He|[Hinv He]].
+      * left. exact He.
+      * right. left. split; [exact He|]. split; [exact Hsim|]. right. rewrite Hkind, Hinv. reflexivity.
+  - destruct (s_transfer cfg) eqn:Ek; cbn [STV.do_transfer] in Hd.
+    + exfalso. unfold mlift in Hd.
+      destruct (frac_transfer cand ceqb w _ (pile cand ceqb p w) t) as [a|e'] eqn:E; [discriminate|].
+      injection Hd as ->.
+      destruct (frac_errors cand ceqb w (lookup0 cand ceqb w (escores prev)) (pile cand ceqb p w) t)
+        as (Hz & Hty & Hkinds).
+      destruct (Hkinds e E) as [He|He]; subst e.
+      * apply Hz in E. rewrite (proj2 (ctx_score cand ceqb ceqb_spec p0 p prev Hctx w Hw)) in E. lra.
+      * apply Hty in E. destruct E as [_ (b & Hb & Hrk)]. apply pile_in in Hb.
+        destruct Hwf as [_ Hwfb]. rewrite Forall_forall in Hwfb.
+        apply (proj1 (Hwfb b (proj1 Hb))). exact Hrk.
+    + destruct (rand_errors cand ceqb w (lookup0 cand ceqb w (escores prev)) (pile cand ceqb p w) t s1)
+        as (_ & _ & Hkinds).
+      destruct (Hkinds e Hd) as [He|[He|He]].
+      * right. right. split; [exact Ek|left; exact He].
+      * right. right. split; [exact Ek|right; exact He].
+      * left. exact He.
+    + contradiction Hk; reflexivity.
+  - left. destruct (tiebreak_set_err cand ceqb ceqb_spec low p0 TBFirstPlace s e (ctx_p0 cand ceqb p0 p prev Hctx) Htb)
+      as [He|[E _]]; [exact He|discriminate].
+  - exfalso. rewrite Ecs in Henough. cbn [length] in Henough. lia.
+Qed.
+
+Theorem droop_loop_errors : forall fuel (p : profile) sts (s : mstate) e,
+  stv_inv cfg t N p0 p sts -> (s_transfer cfg = TRandom -> script_ok s) ->
+  (count_elected sts <= s_m cfg)%Z ->
+  stv_loop fuel cfg t p0 p sts s = inr e -> e = EFuel \/ droop_error e.
+Proof.
+  induction fuel as [|fuel IH]; intros p sts s e Hinv Hscr Hle H; rewrite stv_loop_unfold in H.
+  - destruct (Z.eqb (count_elected sts) (s_m cfg)); [discriminate|]. injection H as <-. left. reflexivity.
+  - destruct (Z.eqb (count_elected sts) (s_m cfg)); [discriminate|].
+    pose proof Hinv as Hinv0.
+    destruct Hinv as [(prev & older & -> & Hctx) _ _ _ _ _].
+    destruct (stv_step cfg t p0 (count_elected (prev :: older)) p prev s) as [[[np st] s1]|e'] eqn:Es.
+    + destruct (stv_inv_step cfg t N p0 p prev older s s1 np st Hinv0 Hscr Es) as [Hinv' Hsuf].
+      apply (IH np (st :: prev :: older) s1 e Hinv').
+      * intros Hr. apply (script_ok_suffix cand s s1 Hsuf). apply Hscr. exact Hr.
+      * apply (droop_step_count p prev older s s1 np st Hinv0 Hscr Hle Es).
+      * exact H.
+    + injection H as <-. right. apply (droop_step_errors p prev older s e' Hinv0 Hscr Hle Es).
+Qed.
+
+End Droop.
+
+(* run level: with a Droop quota and the fractional (or random) transfer a valid profile never
+   meets IndexError / ZeroDivisionError / non-termination; what can still go wrong is listed *)
+Theorem droop_run_errors : forall cfg (p : profile) (s : mstate) e,
+  wf_stv0 p -> s_quota cfg = QDroop -> s_transfer cfg <> TFullWeight ->
+  (s_transfer cfg = TRandom -> script_ok s) ->
+  run_stv cfg p s = inr e ->
+  (e = EValue /\ ~ (1 <= s_m cfg <= Z.of_nat (length (cands p)))%Z) \/
+  e = EScript \/
+  (e = EValue /\ s_simul cfg = false /\ (s_tiebreak cfg = None \/ s_tiebreak cfg = Some TBInvalid)) \/
+  (s_transfer cfg = TRandom /\ (e = EType \/ e = EValue)).
+Proof.
+  intros cfg p s e Hwf Hq Hk Hscr H.
+  pose proof (run_stv_no_fuel cfg p s Hwf Hscr) as Hnf.
+  rewrite run_stv_unfold in H, Hnf.
+  destruct (stv_init cfg p) as [t|e0] eqn:Ei.
+  - destruct (initial_state_ok p Hwf) as [s0 E0]. rewrite E0 in H, Hnf.
+    pose proof (stv_inv_init cfg p t s0 Hwf Ei E0) as Hinv.
+    pose proof (threshold_value cand cfg p t Ei (total_wt_nonneg p Hwf)) as [Hm Hqv].
+    cbv zeta in Hm, Hqv. rewrite Hq in Hqv. destruct Hqv as (_ & HN & H1).
+    assert (Hle : (count_elected [s0] <= s_m cfg)%Z).
+    { destruct (initial_state_inv p s0 E0) as (_ & Hel & _).
+      rewrite count_elected_all. unfold STVSpec.all_elected, STVSpec.elected_in. cbn [map concat].
+      rewrite Hel. cbn. lia. }
+    destruct (droop_loop_errors cfg t _ p Hk HN ltac:(lra) _ p [s0] s e Hinv Hscr Hle H) as [->|Hd].
+    + exfalso. apply Hnf. exact H.
+    + right. exact Hd.
+  - injection H as <-. destruct (stv_init_err cfg p e0 Hwf Ei) as [-> [Hm|Hb]].
+    + left. split; [reflexivity|exact Hm].
+    + rewrite Hq in Hb. discriminate.
+Qed.
+
 End WithCand.
